@@ -69,6 +69,7 @@ func runMulti(c *Case) *Result {
 			}
 			if time.Now().After(deadline) {
 				ends[i] = "hang"
+				hangsSeen++ // the adaptive bound of run.go applies to multi-connection cases as well
 				return
 			}
 			time.Sleep(30 * time.Microsecond)
@@ -83,10 +84,22 @@ func runMulti(c *Case) *Result {
 			sessions[i].holdCh = make(chan struct{})
 		}
 	}
+	// offer hands a connection to the accept loop; a server that does not take it (its accept loop is busy with
+	// another connection's handshake, say) leaves the connection unserved: `hang`
+	offer := func(i int) bool {
+		select {
+		case l.ch <- conns[i]:
+			return true
+		case <-time.After(hangTimeout()):
+			ends[i] = "hang"
+			hangsSeen++
+			return false
+		}
+	}
 	if c.Extra["sched"] == "par" {
 		var wg sync.WaitGroup
 		for i := 0; i < k; i++ {
-			l.ch <- conns[i]
+			offer(i)
 		}
 		for i := 0; i < k; i++ {
 			wg.Add(1)
@@ -115,7 +128,9 @@ func runMulti(c *Case) *Result {
 			if n > len(inputs[i]) {
 				n = len(inputs[i])
 			}
-			l.ch <- conns[i]
+			if !offer(i) {
+				continue
+			}
 			deliver(i, inputs[i][:n])
 			wait(i)
 			if i == 0 && c.Extra["early"] == "1" {
@@ -145,7 +160,7 @@ func runMulti(c *Case) *Result {
 		}
 		for i := 0; i < k; i++ {
 			n, _ := strconv.Atoi(pcs[i])
-			if n < len(inputs[i]) {
+			if n < len(inputs[i]) && ends[i] != "hang" {
 				deliver(i, inputs[i][n:])
 				wait(i)
 			}
